@@ -290,14 +290,10 @@ def plan(inp, forms, with_short=True):
     ctl = inp.get("ctl", [])
     if "in_sorted.xml" in inp["files"]:
         runs.append(dict(REF, via="stream", xml="in_sorted.xml", ctrl="attrsSorted"))
-    if "dtd" in ctl:
-        runs.append(dict(REF, via="stream", xml="in_nodtd.xml", ctrl="noDtdRef"))
     for c in sel:
         if c["src"] in ("parsedXerces", "wrappedXercesDOM"):
             if "nsaxis" in ctl:
                 runs.append(dict(c, xml="in_xmlnsxml.xml", ctrl="xmlnsXml:" + fkey(c)))
-            if "dtd" in ctl:
-                runs.append(dict(c, xml="in_nodtd.xml", ctrl="noDtd:" + fkey(c)))
     runs += sel
     if with_short:
         cbs = [c for c in sel if c["out"] == "callback"]
